@@ -157,6 +157,8 @@ def run(run):
     blocks = [b for b in pool.dump_blocks(r.dump, skip_substr='"pending"') if 'third |-> [t |-> "blank"]' in b]
     rp = calls.Replayer(paths=('direct', 'wrapped', 'formula'))
     run.notes['cases_by_operator'] = calls.replay_dump(run, blocks, rp)
+    # the same calls in four orders, each order in ONE fresh process (state left behind by earlier calls)
+    calls.replay_orders(run, blocks, calls.Replayer(paths=('direct', 'wrapped')), key=lambda b: len(b), sample=20000)
     events = driver(run.seed, 4000 if run.tier == 'quick' else 60000)
     recorded = [e for part in pool.pmap(record, events) for e in part]
     run.evaluations += len(recorded)
